@@ -237,6 +237,29 @@ def observe(scratch, events, tag="obs"):
     return viol, res
 
 
+def binding_selftest(scratch, scenarios, by):
+    """The code -> spec direction must not be vacuous: a recorded trace with one field corrupted (the serial of an install) must
+    be flagged by the observer and rejected by DialsTrace, and a trace with one hook's events removed must be rejected too."""
+    from . import conform
+    for s in scenarios:
+        evs = by.get(s["id"]) or []
+        if s["mode"] != "plan" or not s.get("init") or not any(e.get("ev") == "mon.store" for e in evs):
+            continue
+        if conform.validate_one(scratch, 9000, s, evs).get("status") != "accepted":
+            continue
+        bad1 = [dict(e, serial=e["serial"] + 1) if e.get("ev") == "mon.store" else e for e in evs]
+        bad2 = [e for e in evs if e.get("ev") != "mon.verified"]
+        v1, _ = observe(scratch, bad1, "selfobs")
+        r1 = conform.validate_one(scratch, 9001, s, bad1).get("status")
+        r2 = conform.validate_one(scratch, 9002, s, bad2).get("status")
+        out = {"scenario": s["id"], "corrupted_serial_flagged_by_observer": sorted({v["p"] for v in v1}),
+               "corrupted_serial_conformance": r1, "removed_hook_conformance": r2}
+        if not v1 or r1 == "accepted" or r2 == "accepted":
+            raise C.Inconclusive("binding self-test failed (the trace check is vacuous): %s" % out)
+        return out
+    return None
+
+
 def scenario_of(events, sc):
     for e in events:
         if e.get("sc") == sc and e.get("ev") == "begin":
@@ -432,6 +455,7 @@ def run_check(pid, tier, replay=None):
         step = max(1, len(gated) // n_conf)
         chosen = gated[::step][:n_conf]
         conf = conform.validate(scratch, [(s, by[s["id"]]) for s in chosen], workers=14)
+        binding = binding_selftest(scratch, scenarios, by)
         status = {}
         for r in conf:
             status[r["status"]] = status.get(r["status"], 0) + 1
@@ -449,7 +473,7 @@ def run_check(pid, tier, replay=None):
                     "; distinct = different (scenario, executed schedule) pairs",
             "model": {"config": mc.consts_for(pid, tier), "distinct_states": mcres.distinct, "generated_states": mcres.generated,
                       "depth": mcres.depth, "invariants": mc.INVARIANTS, "action_properties": mc.ACTION_PROPS, "wall_s": round(mcres.wall, 1)},
-            "toggle_selftest": selftest, "blank_set_source_context": blank_ctx,
+            "toggle_selftest": selftest, "binding_selftest": binding, "blank_set_source_context": blank_ctx,
             "spec_behaviours_replayed": len(behaviours), "plan_steps_not_enabled_in_code": plan_skips,
             "observer": {"events": len(events), "tlc_states": obs_states, "breaches_total": len(viol), "other_property_tags_seen": others},
             "strict_conformance": {"traces": len(conf), "by_status": status,
